@@ -6,17 +6,45 @@ use std::io::Write;
 use rustyline::error::ReadlineError;
 use rustyline::Editor;
 
+#[derive(Clone, Copy, PartialEq)]
+enum ScanState {
+    Code,
+    Comment,          // from ; to the end of the line
+    String,           // inside "..."
+    StringEscape,     // the character after \ inside a string
+    QuotedIdentifier, // inside |...|
+    Sharp,            // the character after #
+    Character,        // the character after #\
+}
+
+// The text read so far is complete when every list opened outside of comments, strings,
+// |quoted identifiers| and character literals has been closed, exactly as the lexer sees it.
 fn check_bracket_closed(chars: impl Iterator<Item = char>) -> bool {
     let mut count = 0;
-    let mut in_comment = false;
+    let mut state = ScanState::Code;
     for c in chars {
-        match (c, in_comment) {
-            ('(', false) => count += 1,
-            (')', false) => count -= 1,
-            (';', false) => in_comment = true,
-            ('\n', true) => in_comment = false,
-            _ => (),
-        }
+        state = match (state, c) {
+            (ScanState::Code, '(') | (ScanState::Sharp, '(') => {
+                count += 1;
+                ScanState::Code
+            }
+            (ScanState::Code, ')') => {
+                count -= 1;
+                ScanState::Code
+            }
+            (ScanState::Code, ';') => ScanState::Comment,
+            (ScanState::Code, '"') => ScanState::String,
+            (ScanState::Code, '|') => ScanState::QuotedIdentifier,
+            (ScanState::Code, '#') => ScanState::Sharp,
+            (ScanState::Comment, '\n') | (ScanState::Comment, '\r') => ScanState::Code,
+            (ScanState::String, '"') => ScanState::Code,
+            (ScanState::String, '\\') => ScanState::StringEscape,
+            (ScanState::StringEscape, _) => ScanState::String,
+            (ScanState::QuotedIdentifier, '|') => ScanState::Code,
+            (ScanState::Sharp, '\\') => ScanState::Character,
+            (ScanState::Sharp, _) | (ScanState::Character, _) => ScanState::Code,
+            (unchanged, _) => unchanged,
+        };
     }
     count <= 0
 }
